@@ -81,7 +81,15 @@ func (rt *runtime) cmplEvaluateNodeStatement(node nodeStatement) Value {
 				rt.labels = nil
 			}
 		}()
-		return rt.cmplEvaluateNodeStatement(node.statement)
+		value := rt.cmplEvaluateNodeStatement(node.statement)
+		// 12.12: a break to this label that no block, loop or switch consumed
+		// (the labelled statement is an if, try, with, ...) completes here.
+		if value.kind == valueResult {
+			if r, ok := value.value.(result); ok && r.kind == resultBreak && r.target == node.label {
+				return r.value
+			}
+		}
+		return value
 
 	case *nodeReturnStatement:
 		if node.argument != nil {
